@@ -231,8 +231,106 @@ def scenario(ctx, lines, pend):
             pend.append((case, 'fit', M, s, float(np.max(np.abs(a_k))) + 1.0))
 
 
+def separated_pixels(rng, nx, ny, n, dmin=40.0):
+    """n pixel positions pairwise farther than dmin apart (so that matching is unambiguous)"""
+    pts = []
+    for _ in range(4000):
+        if len(pts) == n:
+            break
+        q = (rng.uniform(0.06 * nx, 0.94 * nx), rng.uniform(0.06 * ny, 0.94 * ny))
+        if all(math.hypot(q[0] - r[0], q[1] - r[1]) > dmin for r in pts):
+            pts.append(q)
+    a = np.array(pts)
+    return a[:, 0], a[:, 1]
+
+
+def multi_scenario(ctx):
+    """several images with DIFFERENT tangent planes (pointing, orientation, scale, corrector type) aligned to
+    ONE reference catalog in a single align_wcs call, each image with its own small affine error expressed
+    in its own plane (the plane of its fit: ref_tpwcs=None).  Every image must land on the reference."""
+    rng = ctx.rng
+    from tweakwcs import align_wcs, XYXYMatch
+    k = rng.choice([2, 2, 3])
+    fitgeom = rng.choice(['shift', 'rshift', 'rscale', 'general'])
+    base = scenes.rand_pointing(rng)
+    ims, truth = [], []
+    ras, decs = [], []
+    for i in range(k):
+        jw = rng.random() < 0.4
+        # pointings 0.4 deg apart in declination (fields are far smaller): catalogs cannot mix
+        dec_i = base[1] + (0.4 * i if base[1] < 0 else -0.4 * i)
+        pt = (base[0], dec_i)
+        c0, info = scenes.mk_jwst(rng, pointing=pt) if jw else scenes.mk_fits(rng, pointing=pt)
+        unit = c0.tanp_center_pixel_scale if jw else 1.0
+        nx, ny = scenes.image_size(c0)
+        n = rng.choice([6, 10, 18])
+        px, py = separated_pixels(rng, nx, ny, n)
+        n = len(px)
+        a = math.radians(rng.uniform(-0.01, 0.01))
+        rot = np.array([[math.cos(a), -math.sin(a)], [math.sin(a), math.cos(a)]])
+        t = np.array([rng.uniform(-0.8, 0.8), rng.uniform(-0.8, 0.8)]) * unit   # well inside the matching tolerance
+        if fitgeom == 'shift':
+            G = Aff(np.eye(2), t)
+        elif fitgeom == 'rshift':
+            G = Aff(rot, t)
+        elif fitgeom == 'rscale':
+            G = Aff((1 + rng.uniform(-1e-4, 1e-4)) * rot, t)
+        else:
+            G = Aff(rot @ np.array([[1 + rng.uniform(-1e-4, 1e-4), rng.uniform(-1e-4, 1e-4)],
+                                    [0.0, 1 + rng.uniform(-1e-4, 1e-4)]]), t)
+        plane = c0.copy()
+        a_k = np.array(plane.world_to_tanp(*c0.det_to_world(px, py)), dtype=float)
+        r_k = G(a_k)
+        ra, dec = plane.tanp_to_world(r_k[0], r_k[1])
+        ras += list(np.asarray(ra, dtype=float))
+        decs += list(np.asarray(dec, dtype=float))
+        new = c0.copy()
+        new.meta['catalog'] = Table([px, py], names=['x', 'y'])
+        new.meta['name'] = 'im%d' % i
+        ims.append(new)
+        truth.append((c0, info, jw, plane, px, py, r_k, G, unit))
+    order = list(range(len(ras)))
+    rng.shuffle(order)
+    refcat = Table([np.array(ras)[order], np.array(decs)[order]], names=['RA', 'DEC'])
+    expand = rng.random() < 0.3
+    case = {'op': 'multi-image', 'kinds': [t[1]['kind'] for t in truth], 'infos': [t[1] for t in truth],
+            'fitgeom': fitgeom, 'n': [len(t[4]) for t in truth], 'G': [[t[7].M.tolist(), t[7].t.tolist()] for t in truth],
+            'expand_refcat': expand}
+    ctx.case(case, nontrivial=True, branch='multi:%s:%s' % ('+'.join(sorted(set(case['kinds']))), fitgeom))
+    try:
+        align_wcs(ims, refcat=refcat, fitgeom=fitgeom, nclip=None, sigma=3.0, minobj=None, expand_refcat=expand,
+                  match=XYXYMatch(searchrad=5.0, separation=0.1, tolerance=2.0, use2dhist=False))
+    except Exception as e:
+        ctx.oracle_fail(case, {'what': 'alignment raised', 'error': '%s: %s' % (type(e).__name__, str(e)[:200])})
+        return
+    for i, (new, (c0, info, jw, plane, px, py, r_k, G, unit)) in enumerate(zip(ims, truth)):
+        fi = new.meta.get('fit_info', {})
+        if fi.get('status') != 'SUCCESS':
+            ctx.oracle_fail(case, {'what': 'status of image %d is not SUCCESS' % i, 'status': fi.get('status')})
+            continue
+        if int(fi.get('nmatches', -1)) != len(px):
+            ctx.oracle_fail(case, {'what': 'image %d: not every source was matched with its reference source' % i,
+                                   'nmatches': fi.get('nmatches'), 'sources': len(px)})
+            continue
+        unit_rad = corrsim.plane_unit_rad(c0)
+        rho = corrsim.field_radius_units(c0)
+        csize = corrsim.corr_size_units(G, rho)
+        if jw:
+            bound = 1e-7 * max(1.0, csize * unit_rad * corrsim.RAD2ARCSEC / 20.0)
+        else:
+            bound = c02.fits_base(c0, rho) + c02.fits_second_order(csize, rho, unit_rad)
+        landed = np.array(plane.world_to_tanp(*new.det_to_world(px, py)), dtype=float)
+        err = float(np.max(np.hypot(*(landed - r_k))))
+        if not np.isfinite(err) or err > bound:
+            ctx.oracle_fail(case, {'what': 'multi-image alignment: sources of image %d do not land on their '
+                                           'reference positions' % i, 'max_err': err, 'bound': bound,
+                                   'units': 'arcsec' if jw else 'pixel', 'reported_rmse': float(fi.get('rmse', -1))})
+
+
 def run(ctx):
     lines, pend = [], []
+    for _ in range(ctx.n(12, 250)):
+        multi_scenario(ctx)
     for _ in range(ctx.n(60, 1500)):
         scenario(ctx, lines, pend)
     if lines:
